@@ -8,6 +8,7 @@ import filecmp
 import hashlib
 import itertools as it
 import logging
+import math
 import numbers
 import os
 import re
@@ -132,7 +133,9 @@ def average_coverage(
     if len(platforms) == 0:
         return float("nan")
 
-    total = sum([coverage(setmap, [p]) for p in platforms])
+    # fsum: the mean must not depend on the order (or the names) of the
+    # platforms in the last bit.
+    total = math.fsum([coverage(setmap, [p]) for p in platforms])
     return total / len(platforms)
 
 
@@ -160,15 +163,14 @@ def divergence(setmap):
     """
     platforms = extract_platforms(setmap)
 
-    d = 0
-    npairs = 0
-    for p1, p2 in it.combinations(platforms, 2):
-        d += distance(setmap, p1, p2)
-        npairs += 1
-
-    if npairs == 0:
+    distances = [
+        distance(setmap, p1, p2) for p1, p2 in it.combinations(platforms, 2)
+    ]
+    if len(distances) == 0:
         return float("nan")
-    return d / float(npairs)
+    # fsum: the mean must not depend on the order (or the names) of the
+    # platforms in the last bit.
+    return math.fsum(distances) / float(len(distances))
 
 
 def summary(setmap: defaultdict[str, int], stream: TextIO = sys.stdout):
